@@ -380,6 +380,16 @@ pub fn main(twins: &'static [Twin]) {
             if multiset(&ml, K::Cap) != multiset(&rl, K::Cap) {
                 msgs.push(format!("capture evaluations differ (multiset): macro {:?}, reference {:?}", multiset(&ml, K::Cap), multiset(&rl, K::Cap)));
             }
+            if prop == "C17" && has("big") {
+                // captures are evaluated by the caller before each step, in branch-then-position order:
+                // their global sequence is deterministic in every macro kind
+                let seq = |l: &[Ev]| l.iter().filter(|e| e.k == K::Cap).map(|e| e.id).collect::<Vec<_>>();
+                if seq(&ml) != seq(&rl) {
+                    let (a, b) = (seq(&ml), seq(&rl));
+                    let i = a.iter().zip(b.iter()).position(|(x, y)| x != y).unwrap_or(a.len().min(b.len()));
+                    msgs.push(format!("block captures are evaluated in a different order than (step, branch, position): first difference at #{}: macro {:?}, reference {:?}", i, a.get(i), b.get(i)));
+                }
+            }
             if prop == "C11" && !t.kind.contains("spawn") {
                 // sequential and non-spawning async kinds: global order of captures relative to callbacks is deterministic
                 let seq = |l: &[Ev]| l.iter().filter(|e| matches!(e.k, K::Cap | K::Call)).map(|e| (e.k, e.id)).collect::<Vec<_>>();
